@@ -35,7 +35,7 @@ COMPONENTS = {
     "simulated": ["Dask executor", "storage (SimFS): listing order, latency, store mode", "uuid4"],
 }
 EXPECTED_PROBES = ["write_pandas", "write_dask", "read_pandas", "read_dask", "read_dask_list",
-                   "read_dask_list_unsorted",
+                   "read_dask_list_unsorted", "read_dask_list_mixing_glob_and_path",
                    "read_dask_glob", "columns_projection", "nonfloat64_subtype",
                    "sliced_or_concat_backing", "ge_11_partitions"]
 
@@ -59,6 +59,10 @@ def cases(tier, base_seed):
         if split:
             steps.append({"op": "write_dask", "ds": "D1", "rows": list(range(half, n)),
                           "nparts": rng.choice((1, 2, 3, 12)), "compression": comp()})
+        if split:
+            # a third dataset outside the glob pattern, for lists mixing a glob and a path
+            steps.append({"op": "write_dask", "ds": "D2", "rows": list(range(min(3, n))),
+                          "nparts": rng.choice((1, 2)), "compression": comp()})
         names = [c["name"] for c in spec["cols"]]
 
         def proj():
@@ -82,9 +86,12 @@ def cases(tier, base_seed):
                 steps.append({"op": "read_dask", "how": "list",
                               "ds": rng.choice((["D0", "D1"], ["D1", "D0"])),
                               "columns": proj()})
-            else:
+            elif r < 0.9:
                 steps.append({"op": "read_dask", "how": "glob", "ds": ["D0", "D1"],
                               "columns": proj()})
+            else:
+                steps.append({"op": "read_dask", "how": "mixed", "ds": ["D0", "D1", "D2"],
+                              "glob_first": rng.random() < 0.5, "columns": proj()})
         yield {"seed": seed, "frame": spec, "steps": steps, "sim": e1.gen_sim_cfg(rng),
                "store": e1.gen_store_cfg(rng)}
         i += 1
@@ -141,7 +148,7 @@ def _guard(what, fn, sig):
         import traceback
         tb = traceback.extract_tb(e.__traceback__)
         where = next((f"{os.path.basename(f.filename)}:{f.name}" for f in reversed(tb)
-                      if "/repo/spatialpandas/" in f.filename), "?")
+                      if seams.SP_DIR in f.filename), "?")
         sig["where"] = where
         raise Bad(f"exception@{what}@{where}",
                   f"{what} raised {type(e).__name__}: {str(e)[:240]} (in {where})") from None
@@ -155,8 +162,10 @@ def _drive(case, root, fs, probes, sig):
     os.makedirs(os.path.join(root, "pd"))
     os.makedirs(os.path.join(root, "dk"))
     model = {}
+    os.makedirs(os.path.join(root, "dk2"))
     paths = {"P": os.path.join(root, "pd", "P.parquet"),
-             "D0": os.path.join(root, "dk", "ds_0"), "D1": os.path.join(root, "dk", "ds_1")}
+             "D0": os.path.join(root, "dk", "ds_0"), "D1": os.path.join(root, "dk", "ds_1"),
+             "D2": os.path.join(root, "dk2", "extra")}
     for step in case["steps"]:
         op = step["op"]
         sig["op"] = op
@@ -199,6 +208,13 @@ def _drive(case, root, fs, probes, sig):
                 arg = paths[dss[0]]
                 dss = dss[:1]
                 probes["read_dask"] = 1
+            elif step["how"] == "mixed":
+                if "D2" not in model or not {"D0", "D1"} <= set(model):
+                    continue
+                g = os.path.join(root, "dk", "ds_*")
+                arg = [g, paths["D2"]] if step["glob_first"] else [paths["D2"], g]
+                dss = ["D0", "D1", "D2"] if step["glob_first"] else ["D2", "D0", "D1"]
+                probes["read_dask_list_mixing_glob_and_path"] = 1
             elif step["how"] == "list":
                 arg = [paths[d] for d in dss]
                 probes["read_dask_list"] = 1
@@ -214,7 +230,7 @@ def _drive(case, root, fs, probes, sig):
                 raise Bad("type", f"read_parquet_dask returned {type(ddf).__name__}")
             got = _guard("read_parquet_dask.compute", lambda: ddf.compute(), sig)
             # a list is read in the order given, a glob in sorted path order
-            order = dss if step["how"] == "list" else sorted(dss)
+            order = dss if step["how"] in ("list", "mixed") else sorted(dss)
             rows = [r for d in order for r in model[d]]
             _compare(got, spec, rows, cols, f"read_parquet_dask[{step['how']}]", GeoDataFrame, sig)
 
